@@ -2,7 +2,7 @@
   Props/TieAvro.lean — a regenerated tie (written by bin/mktie).  `Facts.avroSkeleton` is extracted from /repo on every run
   (harness/cmd/factgen/skeleton.go, go/ast): for every function of package `avro` its control skeleton — the control
   statements with their conditions and the selector calls, in source order; assignments and plain expressions are left
-  out.  `expectedAvroSkeleton` is the skeleton the hand-written models of package `avro` (Impl/Export.lean) were written
+  out.  `expectedAvroSkeleton` is the skeleton the hand-written models of package `avro` (Impl/Avro.lean) were written
   against.  A changed condition, a dropped or added branch, loop, early exit or call breaks `avro_skeleton_as_modelled` on the next
   run even when no generated input exercises the change; the check then searches for a failing input and reports the
   broken tie either way.
